@@ -394,6 +394,87 @@ fn run_meta<T: FromMeta + Observe>(entry: &MetaEntry, meta: &syn::Meta) -> Resul
     }
 }
 
+// built-in and library conversions (judged for totality only)
+#[derive(FromMeta)]
+pub struct L1 {
+    i8: Option<i8>,
+    i16: Option<i16>,
+    i32: Option<i32>,
+    i64: Option<i64>,
+    i128: Option<i128>,
+    isize: Option<isize>,
+    u8: Option<u8>,
+    u16: Option<u16>,
+    u32: Option<u32>,
+    u64: Option<u64>,
+    u128: Option<u128>,
+    usize: Option<usize>,
+    nzu8: Option<std::num::NonZeroU8>,
+    nzi64: Option<std::num::NonZeroI64>,
+    nzu128: Option<std::num::NonZeroU128>,
+    f32: Option<f32>,
+    f64: Option<f64>,
+}
+
+#[derive(FromMeta)]
+pub struct L2 {
+    string: Option<String>,
+    char: Option<char>,
+    bool: Option<bool>,
+    pathbuf: Option<std::path::PathBuf>,
+    unit: Option<()>,
+    abool: Option<std::sync::atomic::AtomicBool>,
+    path: Option<syn::Path>,
+    ident: Option<syn::Ident>,
+    expr: Option<syn::Expr>,
+    ty: Option<syn::Type>,
+    vis: Option<syn::Visibility>,
+    wherec: Option<syn::WhereClause>,
+    litstr: Option<syn::LitStr>,
+    litint: Option<syn::LitInt>,
+    litbool: Option<syn::LitBool>,
+    lit: Option<syn::Lit>,
+    meta: Option<syn::Meta>,
+    exprarray: Option<syn::ExprArray>,
+    exprpath: Option<syn::ExprPath>,
+    exprrange: Option<syn::ExprRange>,
+}
+
+#[derive(FromMeta)]
+pub struct L3 {
+    vlitstr: Option<Vec<syn::LitStr>>,
+    vlitint: Option<Vec<syn::LitInt>>,
+    vu8: Option<Vec<u8>>,
+    vu64: Option<Vec<u64>>,
+    vwhere: Option<Vec<syn::WherePredicate>>,
+    pathlist: Option<darling::util::PathList>,
+    flag: darling::util::Flag,
+    identstring: Option<darling::util::IdentString>,
+    spbool: Option<SpannedValue<bool>>,
+    ovu8: Option<Override<u8>>,
+    wobool: Option<WithOriginal<bool, syn::Meta>>,
+    punct: Option<syn::punctuated::Punctuated<syn::Ident, syn::Token![,]>>,
+    hmss: Option<HashMap<String, String>>,
+    rcu8: Option<Rc<u8>>,
+    arcs: Option<std::sync::Arc<String>>,
+    refb: Option<std::cell::RefCell<bool>>,
+    rmeta: Option<Result<u8, syn::Meta>>,
+    dres: Option<darling::Result<u8>>,
+    #[darling(with = darling::util::parse_expr::preserve_str_literal, map = Some)]
+    pexpr: Option<syn::Expr>,
+}
+
+macro_rules! opaque {
+    ($($t:ident),*) => {$(
+        impl Observe for $t {
+            fn observe(&self) -> Val {
+                Val::Opaque
+            }
+        }
+    )*};
+}
+opaque!(L1, L2, L3);
+
 // keyed collections as root targets; R?H* hash maps and their ordered twins R?B* share site ids
 pub type RHS = HashMap<String, PM<2701>, B>;
 pub type RBS = BTreeMap<String, PM<2701>>;
@@ -415,7 +496,7 @@ pub fn run_meta_receiver(name: &str, entry: &MetaEntry, meta: &syn::Meta) -> Opt
         name,
         entry,
         meta,
-        [S1, S2, S3, S4, S5, S6, S7, S8, S9, S10, S11, N1, N2, Rec, F1, F2, F3, F4, U1, NT1, NT2, W1, E1, E2, E3, EH, WR, MP, RHS, RBS, RHI, RBI, RHP, RHN, RBN, RHH, RBH, RHB, RBB, RHU, RBU]
+        [S1, S2, S3, S4, S5, S6, S7, S8, S9, S10, S11, N1, N2, Rec, F1, F2, F3, F4, U1, NT1, NT2, W1, E1, E2, E3, EH, WR, MP, L1, L2, L3, RHS, RBS, RHI, RBI, RHP, RHN, RBN, RHH, RBH, RHB, RBB, RHU, RBU]
     )
 }
 
